@@ -141,3 +141,11 @@ def segmentation(max_len=400000):
                                                     (1, st.integers(3000, 70000))])).map(list)),
         (5, st.tuples(st.just("cuts"), st.lists(cut, min_size=1, max_size=12)).map(list)),
     ])
+
+
+def deflate_opt():
+    """The permessage-deflate dimension of a case: not negotiated, negotiated with default parameters, or
+    negotiated with drawn window sizes / no_context_takeover flags (harness.deflateref.cfg_of reads it)."""
+    cfg = st.fixed_dictionaries({"sb": st.sampled_from([15, 15, 8, 9, 12]), "cb": st.sampled_from([15, 15, 8, 9, 12]),
+                                 "snct": st.booleans(), "cnct": st.booleans()})
+    return weighted([(3, st.just(False)), (1, st.just(True)), (2, cfg)])
